@@ -540,6 +540,8 @@ func run(c *xs.Ctx, r *xs.Result) {
 			runSequential(c, r, rep.Ops)
 		case "sched":
 			replaySched(c, r, rep.Scenario, rep.Schedule)
+		case "race":
+			runRacePass(c, r)
 		default:
 			runContent(c, r)
 		}
@@ -548,4 +550,7 @@ func run(c *xs.Ctx, r *xs.Result) {
 	runSequential(c, r, nil)
 	runContent(c, r)
 	runSched(c, r)
+	if c.Shard == 0 {
+		runRacePass(c, r)
+	}
 }
